@@ -32,7 +32,13 @@ func boundsRun(c *Ctx, entries []*ssa.Function, hooks *bounds.Hooks) int {
 			continue
 		}
 		seen[fn] = true
+		t1 := time.Now()
+		e0, _, _ := eng.Stats()
 		eng.AnalyzeEntry(fn)
+		e1, _, _ := eng.Stats()
+		if dt := time.Since(t1).Seconds(); dt > 0.5 {
+			r.Infof("BOUNDS entry %s: %.1fs, %d entailment queries", core.FuncName(fn), dt, e1-e0)
+		}
 	}
 	n := 0
 	for _, o := range eng.Obligations() {
